@@ -313,3 +313,71 @@ Proof.
   repeat split; apply T; try (vm_compute; reflexivity); try (simpl; tauto);
     try (right; vm_compute; reflexivity); left; reflexivity.
 Qed.
+
+(* ---- the whole program (Whole/Main.v [tempren_main]; proofs: Whole/PipelineProps.v) ---- *)
+From Tempren Require Import Pipe.FrontCompile Whole.Library Whole.Render Whole.Gather Whole.Main Whole.Facts Whole.Theorems
+  Whole.PipelineProps Whole.Examples.
+
+(* For EVERY template text (compiling or not, any rendered values), registry, name or path mode, strategy without
+   override (stop, ignore, manual without an answer selecting override; custom paths allowed), -r, -ih, sort, dry or
+   real, fault index, listing order, input paths and tree with ordinary names ([tree_ok]; symbolic links allowed):
+   every entry of the initial tree whose key is not the key of a gathered file (directories, hidden files without -ih,
+   files below a subdirectory without -r, everything outside the input directories) is found under the same key with
+   the same node in EVERY state of the run and in the final tree.  The selection is what the program gathers itself:
+   [gather_all o s dirs] (Whole/Gather.v).
+   Directory mode is excluded because the statement is false there: the entries below a renamed directory move with it
+   (and [selected_ok_any] of the run-level theorem asks for non-directories). *)
+Theorem C07_whole_unselected_untouched : forall upper lower R o text dirs s,
+  tree_ok s -> o_mode o <> MDirectory -> no_override o -> (forall l, Permutation l (o_listing o l)) ->
+  forall k n, In (k, n) s -> (forall f, In f (gather_all o s dirs) -> src_key f <> k) ->
+  let r := tempren_main upper lower R o text dirs s in
+  forall s', In s' (r_final r :: s :: r_states r) -> lookup s' k = Some n.
+Proof. exact whole_unselected_untouched. Qed.
+Print Assumptions C07_whole_unselected_untouched.
+
+(* with override (the flag, or any answer at the prompt), name mode: every such entry that is a directory, or that does
+   not sit at the destination key of a rendered entry of the program's own plan *)
+Theorem C07_whole_unselected_untouched_override : forall upper lower R o text dirs s,
+  tree_ok s -> o_mode o = MName -> (forall l, Permutation l (o_listing o l)) ->
+  forall k n, In (k, n) s -> (forall f, In f (gather_all o s dirs) -> src_key f <> k) ->
+  (is_dir_node n = true \/
+   forall b f t, compile R text = inl b -> In (f, RText t) (whole_plan upper lower b o dirs s) -> dst_key f t <> k) ->
+  let r := tempren_main upper lower R o text dirs s in
+  forall s', In s' (r_final r :: s :: r_states r) -> lookup s' k = Some n.
+Proof. exact whole_unselected_untouched_override. Qed.
+Print Assumptions C07_whole_unselected_untouched_override.
+
+Theorem C07_whole_unselected_checker_sound : forall o s dirs k,
+  unselected_b o s dirs k = true -> forall f, In f (gather_all o s dirs) -> src_key f <> k.
+Proof. exact unselected_b_sound. Qed.
+Print Assumptions C07_whole_unselected_checker_sound.
+
+(* the template "x" on the example tree, without -r: in/b.t is renamed to x, in/a.t conflicts and the run stops; the
+   hidden file, the subdirectory and its files, and the other root are not gathered *)
+Example C07_whole_example :
+  let r := ex_main (ex_options MName false false) t_x ex_dirs ex_tree in
+  r_status r = 1%Z /\ length (r_states r) = 1%nat /\
+  map src_key (gather_all (ex_options MName false false) ex_tree ex_dirs) = [[Examples.ex_in; [98; 46; 116]]; [Examples.ex_in; [97; 46; 116]]] /\
+  lookup (r_final r) [Examples.ex_in; [120]] = Some (NFile 1) /\
+  lookup (r_final r) [Examples.ex_in; [46; 104]] = Some (NFile 3) /\
+  lookup (r_final r) [Examples.ex_in; [115]; [99]] = Some (NFile 4) /\
+  lookup (r_final r) [[111; 116; 104; 101; 114]; [122]] = Some (NFile 6).
+Proof. vm_compute. repeat split; reflexivity. Qed.
+
+(* the hypotheses of the theorem hold of the example, so it yields, for every state of that run: *)
+Example C07_whole_example_by_theorem :
+  let r := ex_main (ex_options MName false false) t_x ex_dirs ex_tree in
+  forall s', In s' (r_final r :: ex_tree :: r_states r) ->
+    lookup s' [Examples.ex_in; [46; 104]] = Some (NFile 3) /\ lookup s' [Examples.ex_in; [115]; [99]] = Some (NFile 4) /\
+    lookup s' [[111; 116; 104; 101; 114]; [122]] = Some (NFile 6) /\ lookup s' [Examples.ex_in; [115]] = Some NDir.
+Proof.
+  intros r s' Hs'.
+  assert (T : forall k n, In (k, n) ex_tree -> unselected_b (ex_options MName false false) ex_tree ex_dirs k = true ->
+              lookup s' k = Some n).
+  { intros k n Hk Hu.
+    apply (C07_whole_unselected_untouched ascii_upper_str ascii_lower_str core_reg (ex_options MName false false) t_x
+             ex_dirs ex_tree);
+      [apply tree_ok_b_sound; vm_compute; reflexivity | discriminate | exact I | exact permutes_id
+       | exact Hk | apply unselected_b_sound; exact Hu | exact Hs']. }
+  repeat split; apply T; try (vm_compute; reflexivity); simpl; tauto.
+Qed.
